@@ -391,6 +391,14 @@ class SelectedMailbox:
             if msg_sflags != updated_sflags:
                 self._silenced_sflags.add((msg.uid, updated_sflags))
 
+    def unsilence(self) -> None:
+        """Forgets the silenced flag updates and the hiding of expunges that
+        a command asked for, when it fails: there is no :meth:`.fork` for it,
+        so they would govern what the next command reports."""
+        self._hide_expunged = False
+        self._silenced_flags.clear()
+        self._silenced_sflags.clear()
+
     def fork(self, command: Command) \
             -> tuple[SelectedMailbox, Iterable[UntaggedResponse]]:
         """Compares the state of the current object to that of the last fork,
